@@ -208,6 +208,13 @@ def check_assembly(case, ctx):
         pd = pkg.make_pdef(pc)
         h = pkg.lam_h(pc)
         cp = _state(dict(case['state'], amps=case['state']['amps'][::-1] if p.row_start else case['state']['amps']), pd, h)
+        kind_ = (case.get('state_kinds') or ['general'] * len(panels))[len(refs)]
+        if kind_ == 'membrane-only':
+            cp[2::3] = 0.       # pre-buckling membrane state of this panel: in-plane amplitudes only, w exactly zero
+        elif kind_ == 'bending-only':
+            cp[0::3] = 0.
+            cp[1::3] = 0.
+        ctx.label('panel-state:' + kind_)
         c[p.row_start:p.row_end] = cp
         refs.append((p, pd, pkg.ref_F(pc), h))
     c_before = c.copy()
@@ -309,7 +316,8 @@ def _assembly_strategy(draw, tier='quick'):
                      'pos2': draw(st.sampled_from([0., 1.]))})
     return {'panels': panels, 'conn': conn, 'order': list(range(npan)), 'state': draw(_state_dict()),
             'nx': draw(st.integers(7, 10)), 'ny': draw(st.integers(7, 10)), 'dirseed': draw(st.integers(0, 2 ** 20)),
-            'kt_first': draw(st.booleans())}
+            'kt_first': draw(st.booleans()),
+            'state_kinds': [draw(st.sampled_from(['general', 'general', 'membrane-only', 'bending-only'])) for _ in range(npan)]}
 
 
 SUBS = [
